@@ -727,6 +727,11 @@ func (ξ *BlindCorrectFormProof) Bytes() []byte {
 }
 
 func (ξ *BlindCorrectFormProof) Verify(c *math.Curve, n int, a, b []*math.G1, cm *math.G1, g *math.G1, g0 *math.G1, h *math.G1, u *math.G1, gs []*math.G1) error {
+	if len(a) != n || len(b) != n || len(ξ.x) != n || len(ξ.y) != n || len(ξ.d) != n || len(ξ.f) != n || len(gs) < n {
+		return fmt.Errorf("blind correct form proof is malformed: expected vectors of length %d but got |a|=%d, |b|=%d, |x|=%d, |y|=%d, |d|=%d, |f|=%d",
+			n, len(a), len(b), len(ξ.x), len(ξ.y), len(ξ.d), len(ξ.f))
+	}
+
 	digest := randomOracleForBlindingProof(n, ξ.d, ξ.f, ξ.s, a, b, cm, g, g0, h, u, gs)
 	e := c.HashToZr(digest)
 
